@@ -98,6 +98,7 @@ class LightDriver(MachineDriver):
         self.kind = "".join(sorted(c[0] for c in self.dev.hw_drivers))
         self.cmds = {}              # hw channel -> last commanded brightness
         self.io_wait = []           # pending harness I/O futures (batch back end)
+        self.io_payload = []        # what those pending updates carry
         self.batches = 0
         if self.backend == "batch":
             self.system = PlatformBatchLightSystem(self.m.clock, self._update_callback, 50, 8)
@@ -127,18 +128,27 @@ class LightDriver(MachineDriver):
         self.fade_probe = None      # (t0, fade_s, start, dest) for a fade started from rest
         self.other = self.m.lights["l_b2"] if self.backend == "batch" else None
         self.ref_other = None
-        self.busy_until = self.loop.time()      # reference: when the last commanded fade ends
+        self.until = {}             # reference: key -> end of the fade of its current command
+        self.rm_until = {}          # reference: key -> end of a fading removal
 
     async def _update_callback(self, batch):
         self.batches += 1
         if self.hold_io:
             fut = asyncio.Future()
             self.io_wait.append(fut)
+            payload = tuple((light.number, round(brightness, 4), fade_ms) for light, brightness, fade_ms in batch)
+            self.io_payload.append(payload)
             await fut
+            self.io_payload.remove(payload)
         for light, brightness, fade_ms in batch:
             self.cmds[light.number] = brightness
 
     hold_io = True      # the platform's update callback completes when the environment says so
+
+    @property
+    def busy_until(self):
+        """Reference: when the last fade that is still part of the stack ends (a command for the same key replaces it)."""
+        return max([self.loop.time()] + list(self.until.values()) + list(self.rm_until.values()))
 
     # ---- choices ---------------------------------------------------------------------------------
     def ops(self):
@@ -149,6 +159,8 @@ class LightDriver(MachineDriver):
                 out.append(["io_done"])
             if self.busy_until > self.loop.time() + EPS and self.loop.next_deadline() is None:
                 out.append(["wait"])
+            if not self.hold_io and self.loop.next_deadline() is not None:
+                out.append(["settle"])      # every pending timer in order until none is left (a run of T steps)
             return out
         out = []
         # a single (white) channel only sees shades of white: use white/gray there, red/blue elsewhere
@@ -182,14 +194,29 @@ class LightDriver(MachineDriver):
         before = tuple(self.dev.get_color())
         at_rest = self.loop.next_deadline() is None and now >= self.busy_until - EPS
         kind = op[0]
+        if kind == "settle":
+            n = 0
+            while self.loop.next_deadline() is not None and n < 200:
+                self.loop.fire_next()
+                n += 1
+            if self.busy_until > self.loop.time() + EPS:
+                self.loop.advance(self.busy_until - self.loop.time())
+            return
         if kind in ("wait", "wait_half"):
             target = self.busy_until if kind == "wait" else now + (self.busy_until - now) / 2.0
             self.loop.advance(target - now)
             return
         self.fade_probe = None
-        if op[0] in ("color", "on", "off", "remove") and op[2 if op[0] in ("color", "remove") else 1]:
+        if op[0] in ("color", "on", "off", "remove"):
             f = op[2] if op[0] in ("color", "remove") else op[1]
-            self.busy_until = max(self.busy_until, now + f / 1000.0)
+            k = op[3] if op[0] == "color" else (op[1] if op[0] == "remove" else op[2])
+            self.rm_until.pop(k, None)
+            if op[0] == "remove":
+                had = self.until.pop(k, None) is not None or k in self.ref
+                if f and had:
+                    self.rm_until[k] = now + f / 1000.0
+            else:
+                self.until[k] = now + f / 1000.0
         if kind in ("color", "on", "off"):
             if kind == "color":
                 _, col, fade, key = op
@@ -219,6 +246,8 @@ class LightDriver(MachineDriver):
         elif kind == "clear":
             self.dev.clear_stack()
             self.ref = {}
+            self.until = {}
+            self.rm_until = {}
         elif kind == "hold_io":
             self.hold_io = True
         elif kind == "io_done":
@@ -335,8 +364,10 @@ class LightDriver(MachineDriver):
         if self.backend == "soft":
             hw = self.dev.hw_drivers["white"][0]
             soft = bool(hw.task is not None and not hw.task.done())
-        return (stack, batch, soft, r6(max(self.busy_until - now, 0)), tuple(sorted((k, v["prio"], v["color"]) for k, v in self.ref.items())),
-                tuple(sorted((str(k), round(v, 4)) for k, v in self.cmds.items())), self.hold_io, len(self.io_wait),
+        # pending delayed removals are named after the key: removing the same key again replaces, another key adds
+        delays = tuple(sorted(str(n) for n in self.dev.delay.delays))
+        return (stack, batch, soft, delays, r6(max(self.busy_until - now, 0)), tuple(sorted((k, v["prio"], v["color"]) for k, v in self.ref.items())),
+                tuple(sorted((str(k), round(v, 4)) for k, v in self.cmds.items())), self.hold_io, len(self.io_wait), tuple(self.io_payload),
                 self.ref_other, self.rel_timers(), self.task_fp())
 
     def observe(self):
@@ -348,14 +379,17 @@ def make(light, backend):
     class D(LightDriver):
         pass
     D.light = light
-    D.backend = backend
-    D.__name__ = "Light_%s_%s" % (light, backend)
+    # "batch-free": the same batched back end, but the platform's update callback returns at once (long command
+    # sequences fit the depth); "batch": every update waits until the environment completes it (races with new commands)
+    D.backend = "batch" if backend == "batch-free" else backend
+    D.hold_io = backend != "batch-free"
+    D.__name__ = "Light_%s_%s" % (light, backend.replace("-", "_"))
     return D
 
 
 PLANS = [("l_rgb", "virtual"), ("l_w", "virtual"), ("l_rgbw", "virtual")]
 SOFT_PLANS = [("l_soft", "soft")]
-BATCH_PLANS = [("l_b1", "batch")]
+BATCH_PLANS = [("l_b1", "batch"), ("l_b1", "batch-free")]
 
 
 def body(ctx):
